@@ -58,11 +58,12 @@ def run(names, rtc=False, scratch=False):
         if scratch:
             # same procedure on a scratch worktree of /repo's HEAD (so that /repo stays usable while this runs); the checks
             # read the repository through VERIF_REPO and write evidence / replays to a scratch directory
-            wt = "/tmp/seeded_wt"
+            slot = os.environ.get("SEEDED_SLOT", "")  # several runs side by side: one worktree / output dir per slot
+            wt = "/tmp/seeded_wt" + slot
             sh("git -C /repo worktree remove --force %s" % wt)
             sh("git -C /repo worktree add --detach %s HEAD -f" % wt)
             a = sh("git -C %s apply %s" % (wt, os.path.join(d, "patch.diff")))
-            env = "VERIF_REPO=%s VERIF_EVIDENCE_DIR=/tmp/seeded_out/evidence VERIF_REPLAY_DIR=/tmp/seeded_out/replays " % wt
+            env = "VERIF_REPO=%s VERIF_EVIDENCE_DIR=/tmp/seeded_out%s/evidence VERIF_REPLAY_DIR=/tmp/seeded_out%s/replays " % (wt, slot, slot)
         else:
             clean()
             a = sh("git -C /repo apply %s" % os.path.join(d, "patch.diff"))
@@ -82,8 +83,9 @@ def run(names, rtc=False, scratch=False):
         meta["checks"]["rtc" if rtc else "proof-only"] = dict(verdict=verdict, wall_s=round(time.time() - t, 1), lines=[l[:300] for l in lines[:6]])
         json.dump(meta, open(os.path.join(d, "meta.json"), "w"), indent=1)
         print("%-28s %-8s %-22s %s" % (name, meta["property"], verdict, (lines[0][:160] if lines else "")))
-    # restore evidence / replays produced on the mutated tree
-    sh("cd %s && git checkout -- evidence replays 2>/dev/null; git clean -fdq replays" % HERE)
+    # restore evidence / replays produced on the mutated tree (the scratch mode wrote them elsewhere)
+    if not scratch:
+        sh("cd %s && git checkout -- evidence replays 2>/dev/null; git clean -fdq replays" % HERE)
 
 def table():
     rows = ["| seeded change | property | needs | proof tier alone | with bounded tier | first line reported |", "|---|---|---|---|---|---|"]
